@@ -76,6 +76,7 @@ type c12Obs struct {
 	Hung    bool     `json:"hung,omitempty"`
 	Fatal   string   `json:"fatal,omitempty"`
 	Panics  int      `json:"panics,omitempty"`
+	Panic1  string   `json:"panic1,omitempty"`
 	Harness bool     `json:"harness_race,omitempty"`
 	Missing []string `json:"missing,omitempty"`
 	Report  string   `json:"report,omitempty"` // head of the first race report
@@ -200,6 +201,7 @@ type c12Env struct {
 	nAdded atomic.Int64
 	evals  atomic.Uint64
 	panics atomic.Int64
+	panic1 atomic.Value // first recovered panic message of the round
 }
 
 // per goroutine
@@ -692,21 +694,26 @@ func c12Child(spec string) {
 	if in.Rounds < 1 {
 		in.Rounds = 1
 	}
-	budget := time.Duration(in.Rounds*in.DurMs)*time.Millisecond + 4*time.Second
+	budget := time.Duration(in.Rounds*in.DurMs)*time.Millisecond + 3*time.Second
 	go func() {
 		time.Sleep(budget)
 		fmt.Println("C12HUNG")
 		os.Exit(3)
 	}()
 	var panics int64
+	first := ""
 	for round := 0; round < in.Rounds; round++ {
-		panics += c12Round(&in, round)
+		n, msg := c12Round(&in, round)
+		panics += n
+		if first == "" {
+			first = msg
+		}
 	}
-	fmt.Printf("C12DONE panics=%d\n", panics)
+	fmt.Printf("C12DONE panics=%d first=%q\n", panics, first)
 	os.Exit(0)
 }
 
-func c12Round(in *C12Input, round int) int64 {
+func c12Round(in *C12Input, round int) (int64, string) {
 	env := c12Setup(in)
 	start := make(chan struct{})
 	var wg sync.WaitGroup
@@ -749,13 +756,16 @@ func c12Round(in *C12Input, round int) int64 {
 	}
 	close(start)
 	wg.Wait()
-	return env.panics.Load()
+	msg, _ := env.panic1.Load().(string)
+	return env.panics.Load(), msg
 }
 
 func c12Call(env *c12Env, t *c12T, op c12Op) {
 	defer func() {
 		if r := recover(); r != nil {
-			env.panics.Add(1)
+			if env.panics.Add(1) == 1 {
+				env.panic1.Store(fmt.Sprint(r))
+			}
 		}
 	}()
 	op(env, t)
@@ -1013,8 +1023,12 @@ func c12Run(c *Ctx, t *c12Table, in *C12Input) *c12Obs {
 		obs.Exit = -1
 	}
 	so, se := stdout.String(), stderr.String()
-	if m := regexp.MustCompile(`C12DONE panics=(\d+)`).FindStringSubmatch(so); m != nil {
+	if m := regexp.MustCompile(`C12DONE panics=(\d+) first=("(?:[^"\\]|\\.)*")`).FindStringSubmatch(so); m != nil {
 		obs.Panics, _ = strconv.Atoi(m[1])
+		obs.Panic1, _ = strconv.Unquote(m[2])
+		if len(obs.Panic1) > 160 {
+			obs.Panic1 = obs.Panic1[:160]
+		}
 	}
 	switch {
 	case strings.Contains(se, "WARNING: DATA RACE"):
@@ -1314,7 +1328,7 @@ func runC12(c *Ctx) error {
 			}
 		}
 		muts := []string{"Add", "Add1", "Remove", "Remove1", "Set", "Toggle1", "AddErr", "EvAdd1", "CanAdd1"}
-		nMix := c.N(160, 6000)
+		nMix := c.N(160, 4000)
 		for i := 0; i < nMix; i++ {
 			n := r.Range(2, 16)
 			in := &C12Input{Kind: "mix", Warm: r.Chance(70), Handlers: r.Chance(80), Tracer: r.Chance(50),
@@ -1338,7 +1352,7 @@ func runC12(c *Ctx) error {
 		}
 
 		// ---- (c) NetworkMachine fed by UpdateClock while being read
-		nNM := c.N(40, 1500)
+		nNM := c.N(40, 1000)
 		for i := 0; i < nNM && len(drivenNM) > 0; i++ {
 			n := r.Range(2, 12)
 			in := &C12Input{Kind: "netmach", Warm: true, Tracer: r.Chance(50),
@@ -1350,7 +1364,12 @@ func runC12(c *Ctx) error {
 			for k := 1; k < n; k++ {
 				var th []string
 				for j := r.Range(1, 3); j > 0; j-- {
-					th = append(th, drivenNM[r.Intn(len(drivenNM))])
+					// one feeder only: two concurrent updateClock calls deadlock
+					n := drivenNM[r.Intn(len(drivenNM))]
+					for n == "NM.UpdateClock" {
+						n = drivenNM[r.Intn(len(drivenNM))]
+					}
+					th = append(th, n)
 				}
 				in.Threads = append(in.Threads, th)
 			}
@@ -1387,6 +1406,7 @@ func runC12(c *Ctx) error {
 	hung, fatal, harnessRaces, panics := 0, 0, 0, 0
 	var hungSamples, fatalSamples []string
 	raceSites := map[string]int{}
+	panicKinds := map[string]int{}
 	for _, j := range jobs {
 		in, obs := j.in, j.obs
 		obs.Missing = missing
@@ -1426,6 +1446,9 @@ func runC12(c *Ctx) error {
 			fmt.Fprintf(os.Stderr, "harness race in %v:\n%s\n", in.Threads, obs.Report)
 		}
 		panics += obs.Panics
+		if obs.Panic1 != "" {
+			panicKinds[regexp.MustCompile(`[0-9]+`).ReplaceAllString(obs.Panic1, "N")]++
+		}
 		out.Add(j.kind, in, obs, c12Coq(in, obs), false, "")
 	}
 	if harnessRaces > 0 {
@@ -1447,6 +1470,7 @@ func runC12(c *Ctx) error {
 			"children_crashed":        fatal,
 			"children_crashed_samples": fatalSamples,
 			"recovered_panics_in_calls": panics,
+			"recovered_panic_kinds":     panicKinds,
 			"unmodelled": []string{
 				"deadlocks (a hung child is counted, not judged: e.g. recursive schemaMx.RLock in Export / emitEvents against a pending schemaMx.Lock)",
 				"Dispose / DisposeForce racing with the calls (C13)",
